@@ -451,23 +451,29 @@ func runSweep(c *core.Ctx, t *core.Trace) {
 	var fails []mismatch
 	var totalM float64
 	report := []map[string]interface{}{}
-	// The sweep is time-boxed: on a machine shared with other work the 2^32 spaces (about 140 CPU minutes) do not fit
-	// the tier's budget.  Every space gets the part of the budget that its size is of the whole (what an earlier space
-	// did not use is left to the later ones); the blocks of a space are visited in a strided order, so what is covered
+	// The sweep of the large spaces (thorough tier: 2^28..2^32 patterns each, about 140 CPU minutes together) is
+	// time-boxed: on a machine shared with other work they do not fit the tier's budget.  Every large space gets the part
+	// of the budget that its size is of the whole (what an earlier space did not use is left to the later ones); the blocks of a space are visited in a strided order, so what is covered
 	// when the time is up is spread over the whole space, and the evidence says how much it was.  Load can only lose
 	// coverage here, never produce a disagreement.
-	budget := time.Duration(c.Pick(60, 840)) * time.Second
+	budget := time.Duration(c.Pick(60, 780)) * time.Second
 	if v, err := strconv.Atoi(c.Args["sweep_s"]); err == nil && v > 0 {
 		budget = time.Duration(v) * time.Second
 	}
+	const always = 1 << 25 // spaces up to this size (all of the quick tier; the boundary neighbourhoods) are always completed
 	var allN, cumN float64
 	for _, s := range spaces {
-		allN += float64(s.n)
+		if s.n > always {
+			allN += float64(s.n)
+		}
 	}
 	start := time.Now()
 	for _, s := range spaces {
-		cumN += float64(s.n)
-		deadline := start.Add(time.Duration(float64(budget) * cumN / allN))
+		deadline := start.Add(1000 * time.Hour)
+		if s.n > always {
+			cumN += float64(s.n)
+			deadline = start.Add(time.Duration(float64(budget) * cumN / allN))
+		}
 		var mu sync.Mutex
 		var bad []uint64
 		nblk := (s.n + sweepBlock - 1) / sweepBlock
